@@ -134,7 +134,8 @@ P["C08"] = dict(
              "R-SUBGRID-KEPT: no NTv2 sub-grid record is dropped because of its position in the file (the deepest sub-grid can only be found if it was kept)",
              "R-FULL-RANGE: the unit/band conversion loops of normalize_gravsoft_grid_values cover 0..grid.len()",
              "R-ARG-SELECTION: at every call of a crate function no argument is a caller variable named like another same-typed parameter of the callee (exchanged arguments of equal type, e.g. qs(e, sinphi), chase(&locals, globals, key))",
-             "R-NULL-LAST: in grids_at the null grid answers only after the strict and the margin pass over all grids have failed"],
+             "R-NULL-LAST: in grids_at the null grid answers only after the strict and the margin pass over all grids have failed",
+             "R-NTV2-FIELDS: grid geometry (increments, bounds) of NTv2 sub-grids comes from the records documented for it"],
     not_decided=["bilinearity, continuity, NTv2 sub-grid selection values", "unit conventions"],
     level="Decides the 'outside all grids is failed' clause as a path property; interpolation numerics are not decided.",
     design_ref="DESIGN.md section 3, C08",
@@ -215,7 +216,8 @@ P["C12"] = dict(
              "R-STACK-LOCAL: the stack is a fresh local of each application; no persistent storage of stack type",
              "R-PIPE-MIN: an underflow (0) in any step makes the pipeline report 0",
              "R-UNDERFLOW-GUARD/exact: the depth tests are strict (`depth < demand` fails), a program needing exactly the available depth is not an underflow",
-             "R-ARG-SELECTION: at every call of a crate function no argument is a caller variable named like another same-typed parameter of the callee (exchanged arguments of equal type, e.g. qs(e, sinphi), chase(&locals, globals, key))"],
+             "R-ARG-SELECTION: at every call of a crate function no argument is a caller variable named like another same-typed parameter of the callee (exchanged arguments of equal type, e.g. qs(e, sinphi), chase(&locals, globals, key))",
+             "R-UNDERFLOW-GUARD/sub: a `depth - x` in a stack primitive is computed only after that very x has been tested against the depth"],
     not_decided=["abstract-machine equivalence of the primitives", "constructor-time numeric validation"],
     level="Decides that the dispatch tables are total and read the right keys; the machine semantics are only "
           "partially decided (see DESIGN.md).",
@@ -237,7 +239,8 @@ P["C15"] = dict(
              "R-LOOP-RANK: decoder and lookup loops terminate", "T-NTV2-OFFSETS: record offsets = 16k+8 in format order",
              "R-ENDIAN-ARMS: each getter pairs the big-endian flag with from_be_bytes and the other arm with from_le_bytes",
              "R-MULTIMAP: sub-grids sharing a parent are all kept",
-             "R-SUBGRID-KEPT: every sub-grid record decoded by Ntv2Grid::new is stored and registered under its parent, whatever the order of the records"],
+             "R-SUBGRID-KEPT: every sub-grid record decoded by Ntv2Grid::new is stored and registered under its parent, whatever the order of the records",
+             "R-NTV2-FIELDS: every field of the decoded NTv2 sub-grid header is read from the value part of the record of that name (dlon from LONG_INC ...)"],
     not_decided=["faithfulness of decoded values", "endianness handling", "binary/ASCII agreement",
                  "arithmetic overflow of header-derived products", "index arithmetic of BaseGrid::at beyond the row/col invariants"],
     level="Decides the memory-safety style clauses (no out-of-bounds read, no division by zero, no unguarded unwrap, "
@@ -319,7 +322,9 @@ P["C20"] = dict(
              "R-KP-ERRORS: errors of ctx.op, ctx.apply, File::open reach main's Result through `?`",
              "R-KP-DEFAULTS: missing height/time default to 0/NaN; -z/-t override elements 2/3",
              "R-BATCH-RESET: after an intermediate transform() in the reading loop the buffer is emptied on every path back to the loop header",
-             "R-SIGN-CARRIER: the sexagesimal parser kp reads its input with keeps the sign of angles with zero whole degrees"],
+             "R-SIGN-CARRIER: the sexagesimal parser kp reads its input with keeps the sign of angles with zero whole degrees",
+             "R-KP-ROUNDTRIP: the roundtrip residual is the roundtrip result minus the saved input, in this order",
+             "R-KP-DECIMALS: no branch of transform depends on the value of the requested number of decimals"],
     not_decided=["the printed digits (formatting, rounding, decimals/dimension per batch)", "comment/blank handling"],
     level="Decides the structural clauses of kp (one line per tuple, direction, error propagation, no panic on empty / "
           "wide input); what is printed is not decided.",
@@ -340,7 +345,8 @@ P["C14"] = dict(
              "R-DIMENSION: (units-of-measure inference) every addition, subtraction and comparison in the ellipsoid geometry and in the operators with documented tuple conventions joins quantities of one physical dimension, transcendental functions get dimensionless arguments, and written tuple elements have the documented dimension (length / angle / time)",
              "R-PARAM-MIRROR: forward and inverse of the operators that wrap ellipsoid methods depend on the same parameters (same ellipsoid in both directions)",
              "R-WRAPPER-DISPATCH: each variant (flag / action) of the latitude, curvature and gravity operators applies exactly the ellipsoid method documented for it, forward and inverse (the operator and the method are the same route)",
-             "R-ARG-SELECTION: at every call of a crate function no argument is a caller variable named like another same-typed parameter of the callee (exchanged arguments of equal type, e.g. qs(e, sinphi), chase(&locals, globals, key))"],
+             "R-ARG-SELECTION: at every call of a crate function no argument is a caller variable named like another same-typed parameter of the callee (exchanged arguments of equal type, e.g. qs(e, sinphi), chase(&locals, globals, key))",
+             "R-ITER-CAP-AGREE: the geodesic operator rejects only runs at the iteration cap of the ellipsoid method (threshold within 1% of the cap), so operator and method agree on every converged solution"],
     not_decided=["every numerical agreement listed in the statement (tmerc vs btmerc, cart vs geocart inverse, "
                  "series vs closed forms and quadrature)"],
     level="Decides wiring agreement between independent routes; numerical agreement is not decided.",
@@ -354,7 +360,9 @@ P["C16"] = dict(
              "R-TYPED-EXTRACT: in ParsedParameters::new each OpParameter variant is parsed by the parser of the declared type (usize / i64 / parse_sexagesimal / none) and naturals and integers are stored unconverted",
              "R-SIGN-CARRIER: parse_sexagesimal takes the sign of the angle from the sign bit (signum) of the degrees field whose magnitude it uses, so -0:30 keeps its sign",
              "R-MODIFIER-ROTATE: position of modifiers - every leading modifier is rotated behind the name, not only the first",
-             "R-ELLPS-SHADOW: a declared ellps_0 is not dead behind the always-present default of ellps"],
+             "R-ELLPS-SHADOW: a declared ellps_0 is not dead behind the always-present default of ellps",
+             "R-TYPED-EXTRACT/rejects: each numeric arm keeps its BadParam rejection",
+             "R-NORMALIZE-ORDER: no later replacement of normalize can create the pattern of an earlier one (blank removal next to `=` precedes the subscript replacements); split_into_steps maps CR LF and bare CR to LF"],
     not_decided=["idempotence of normalize and equivalence of differently formatted texts (string rewriting on all "
                  "inputs)", "parsing of each value type", "defaults, required parameters, last-wins, unknown keys ignored"],
     level="Decides only the declaration/use agreement clause of 'parameters are typed as declared'; the tokenizer's "
@@ -377,7 +385,8 @@ P["C18"] = dict(
              "clones; no Arc mutation, no unsafe", "R-CONTEXT-AGREE",
              "R-CONTEXT-OP-FRESH: every Ok(handle) returned by Context::op is preceded by Op::new and the insertion of the new operator (no handle of an older operator is handed out)",
              "R-REGISTRATION-FIRST: in Plain::get_resource the look-up among run-time registrations dominates every file read",
-             "R-NAME-SIBLING: is_resource_name and the macro branch of Op::op agree on what a macro name is (contains a colon)"],
+             "R-NAME-SIBLING: is_resource_name and the macro branch of Op::op agree on what a macro name is (contains a colon)",
+             "R-CACHE-KEY: the process-wide grid cache is read and written under the grid name as given, the same value the file is searched under"],
     not_decided=["file based macro lookup semantics (get_resource string handling, fenced blocks)"],
     level="Decides immutability after instantiation, precedence of registrations and resolution order as structural / "
           "type-level facts valid for all histories and schedules; register file parsing is not decided.",
